@@ -3,8 +3,10 @@ from .common import Check, correspond, canon, ub_site, enclosing_function, I64MI
 from . import civil as C
 
 THEOREMS = {
-    'C04': [],
-    'C05': [],
+    'C04': ['Cctz.C04.nSec_valid', 'Cctz.C04.nSec_exact', 'Cctz.C04.nSec_unique', 'Cctz.C04.align_spec',
+            'Cctz.C04.civilNew_spec', 'Cctz.C04.nSec_no_overflow'],
+    'C05': ['Cctz.C05.add_exact', 'Cctz.C05.sub_exact', 'Cctz.C05.difference_exact', 'Cctz.C05.inverse', 'Cctz.C05.lt_iff',
+            'Cctz.C05.lt_iff_difference', 'Cctz.C05.add_no_overflow', 'Cctz.C05.sub_no_overflow', 'Cctz.C05.difference_no_overflow'],
     'C17': ['Cctz.C17.getWeekday_spec', 'Cctz.C17.getYearday_spec', 'Cctz.C17.nextWeekday_spec',
             'Cctz.C17.prevWeekday_spec', 'Cctz.C17.weekday_spec_sanity'],
 }
